@@ -522,7 +522,7 @@ fn fat_flags_decode() {
 
 // ------------------------------------------------------------------------------------------- faults (C09)
 
-fn fault_table(ft: FatType) -> [u8; NB] {
+pub(crate) fn fault_table(ft: FatType) -> [u8; NB] {
     // chain 2 -> 3 -> 5 -> EOC, cluster 4 in use by another chain (EOC), 6.. free; 8 entries
     let mut d = [0u8; NB];
     match ft {
@@ -586,7 +586,7 @@ fn fault_truncate16() { fault_free_check(FatType::Fat16, true); }
 #[kani::unwind(44)]
 fn fault_truncate32() { fault_free_check(FatType::Fat32, true); }
 
-fn mark_used(ft: FatType, t: &mut [u8; NB], c: u32) {
+pub(crate) fn mark_used(ft: FatType, t: &mut [u8; NB], c: u32) {
     match ft {
         FatType::Fat12 => {
             let o = (c + c / 2) as usize;
